@@ -43,13 +43,24 @@ Definition cfg_type (t : ty) : bool :=
 Definition defn_typed (t : ty) (defn : option value) : bool :=
   match defn with Some d => has_type d t | None => true end.
 
+(* a class whose definition defaults, where present, are instances of the annotations (the class of an Optional member that is None) *)
+Fixpoint member_loads (s : schema) : bool :=
+  match s with
+  | SLeaf t defn => match defn with
+                    | None | Some VNone => true
+                    | Some d => cfg_type t && has_type d t
+                    end
+  | SNode fs => forallb (fun kv => member_loads (snd kv)) fs
+  | SOpt s' => member_loads s'
+  end.
+
 (* field names are distinct in every class; every leaf is in the grammar, with a well-typed default and a well-typed value *)
 Fixpoint in_quantifier (s : schema) (x : inst) {struct s} : bool :=
   match s, x with
   | SLeaf t defn, ILeaf v => cfg_type t && defn_typed t defn && has_type v t
   | SNode fs, INode xs =>
       str_nodupb (map fst fs) && all2b in_quantifier fs xs
-  | SOpt s', ILeaf VNone => match s' with SNode _ => true | _ => false end
+  | SOpt s', ILeaf VNone => match s' with SNode _ => member_loads s' | _ => false end
   | SOpt s', INode _ => match s' with SNode _ => in_quantifier s' x | _ => false end
   | _, _ => false
   end.
@@ -77,22 +88,11 @@ Definition not_null_over_default (defn : option value) (v : value) : bool :=
   | _, _ => true
   end.
 
-(* a class none of whose Tuple fields lacks a definition default (an Optional member of such a class can be None) *)
-Fixpoint member_loads (s : schema) : bool :=
-  match s with
-  | SLeaf t defn => match defn with
-                    | None | Some VNone => match t with TTupFix _ | TTupVar _ => false | _ => true end
-                    | Some d => cfg_type t && has_type d t
-                    end
-  | SNode fs => forallb (fun kv => member_loads (snd kv)) fs
-  | SOpt s' => member_loads s'
-  end.
-
 Fixpoint side_conditions (s : schema) (x : inst) {struct s} : bool :=
   match s, x with
   | SLeaf t defn, ILeaf v => items_plain t && not_null_over_default defn v
   | SNode fs, INode xs => all2b side_conditions fs xs
-  | SOpt s', ILeaf VNone => member_loads s'
+  | SOpt _, ILeaf VNone => true
   | SOpt s', INode _ => side_conditions s' x
   | _, _ => false
   end.
